@@ -999,3 +999,166 @@ Proof.
   rewrite (set_optimistic_other _ _ _ _ _ E2 a Hno) in Hp.
   apply (I1 a p'); [apply (Permutation_in _ (Permutation_sym Hp')); exact Hin | exact Hp | exact Hc].
 Qed.
+
+(* ---- C14: the rate-order clause of the rotation policy ------------------------------------------------------ *)
+(* sort_rates is descending in the rate *)
+Definition rate_ge (x y : addr * N) : Prop := snd y <= snd x.
+Lemma insert_rate_sorted x l : StronglySorted rate_ge l -> StronglySorted rate_ge (insert_rate x l).
+Proof.
+  induction 1 as [|y r Hr IH Hy]; cbn [insert_rate]; [repeat constructor|].
+  destruct (N.leb_spec (snd y) (snd x)) as [L|L].
+  - constructor; [constructor; assumption|]. constructor; [exact L|].
+    rewrite Forall_forall in *. intros z Hz. specialize (Hy z Hz). unfold rate_ge in *. lia.
+  - constructor; [exact IH|]. rewrite Forall_forall in *. intros z Hz.
+    apply (Permutation_in _ (insert_rate_perm x r)) in Hz. destruct Hz as [<-|Hz]; [unfold rate_ge; lia | exact (Hy z Hz)].
+Qed.
+Lemma sort_rates_sorted l : StronglySorted rate_ge (sort_rates l).
+Proof. induction l as [|x l IH]; cbn [sort_rates fold_right]; [constructor | apply insert_rate_sorted, IH]. Qed.
+
+Lemma sorted_app_order (l1 l2 : list (addr * N)) x y :
+  StronglySorted rate_ge (l1 ++ l2) -> In x l1 -> In y l2 -> snd y <= snd x.
+Proof.
+  induction l1 as [|z l1 IH]; intros HS Hx Hy; [contradiction|]. cbn [app] in HS. inversion HS as [|? ? HS' HF]; subst.
+  destruct Hx as [->|Hx]; [|exact (IH HS' Hx Hy)].
+  rewrite Forall_forall in HF. apply (HF y). apply in_or_app. right. exact Hy.
+Qed.
+
+(* once the slots are used up every further peer is choked *)
+Lemma rotate_go_full new_opt : forall order ps count flips ps' fl, NoDup order -> MAX_UNCHOKED <= count ->
+  rotate_go ps order new_opt count flips = Ok (ps', fl) ->
+  (forall a p', In a order -> pget ps' a = Some p' -> p_am_choked p' = true) /\
+  (forall b, ~ In b order -> pget ps' b = pget ps b).
+Proof.
+  induction order as [|a rest IH]; intros ps count flips ps' fl Hnd Hc H; cbn [rotate_go] in H.
+  - injection H as <- _. split; [intros a p' [] | reflexivity].
+  - destruct (pget ps a) as [p|] eqn:Ep; [|discriminate]. inversion Hnd as [|? ? Hni Hnd']; subst.
+    replace (count <? MAX_UNCHOKED) with false in H by lia.
+    assert (Go : forall am fl0, am = true ->
+              rotate_go (pset ps a (set_am_choked p am match new_opt with [] => p_optimistic p | _ => false end)) rest new_opt count (flips ++ fl0) = Ok (ps', fl) ->
+              (forall a0 p', In a0 (a :: rest) -> pget ps' a0 = Some p' -> p_am_choked p' = true) /\
+              (forall b, ~ In b (a :: rest) -> pget ps' b = pget ps b)).
+    { intros am fl0 -> H'. destruct (IH _ _ _ _ _ Hnd' Hc H') as [I1 I2]. split.
+      - intros a0 p' [<-|Hin] Hp'; [|exact (I1 a0 p' Hin Hp')].
+        rewrite (I2 a Hni), pget_pset_same in Hp'. injection Hp' as <-. reflexivity.
+      - intros b Hb. rewrite (I2 b) by (intros Hin; apply Hb; right; exact Hin).
+        apply pget_pset_other. intros ->. apply Hb. left. reflexivity. }
+    destruct (negb (p_am_choked p)) eqn:E1.
+    + apply (Go true [(a, true)] eq_refl H).
+    + apply (Go (p_am_choked p) []); [|exact H]. destruct (p_am_choked p); [reflexivity | discriminate].
+Qed.
+
+(* the order splits into a first part processed while slots were free and a rest processed when they were used up *)
+Lemma rotate_go_split new_opt : forall order ps count flips ps' fl, NoDup order ->
+  rotate_go ps order new_opt count flips = Ok (ps', fl) ->
+  exists pre post, order = pre ++ post /\
+    (forall a p', In a post -> pget ps' a = Some p' -> p_am_choked p' = true) /\
+    (forall a p', In a pre -> pget ps' a = Some p' -> p_am_choked p' = true -> p_interested p' = true -> mem_addr a new_opt = true).
+Proof.
+  induction order as [|a rest IH]; intros ps count flips ps' fl Hnd H.
+  - exists [], []. split; [reflexivity|]. split; intros a p' [].
+  - destruct (N.ltb_spec count MAX_UNCHOKED) as [Hlt|Hge].
+    2:{ exists [], (a :: rest). split; [reflexivity|]. split; [|intros a0 p' []].
+        destruct (rotate_go_full new_opt (a :: rest) ps count flips ps' fl Hnd Hge H) as [I1 _]. exact I1. }
+    cbn [rotate_go] in H. destruct (pget ps a) as [p|] eqn:Ep; [|discriminate]. inversion Hnd as [|? ? Hni Hnd']; subst.
+    replace (count <? MAX_UNCHOKED) with true in H by lia.
+    set (opt := match new_opt with [] => p_optimistic p | _ => false end) in *.
+    assert (Go : forall am cnt' fl0,
+              (am = true -> p_interested p = true -> mem_addr a new_opt = true) ->
+              rotate_go (pset ps a (set_am_choked p am opt)) rest new_opt cnt' (flips ++ fl0) = Ok (ps', fl) ->
+              exists pre post, a :: rest = pre ++ post /\
+                (forall a0 p', In a0 post -> pget ps' a0 = Some p' -> p_am_choked p' = true) /\
+                (forall a0 p', In a0 pre -> pget ps' a0 = Some p' -> p_am_choked p' = true -> p_interested p' = true -> mem_addr a0 new_opt = true)).
+    { intros am cnt' fl0 Ham H'. destruct (IH _ _ _ _ _ Hnd' H') as (pre & post & E & P1 & P2).
+      exists (a :: pre), post. split; [cbn [app]; rewrite E; reflexivity|]. split; [exact P1|].
+      intros a0 p' [<-|Hin] Hp' Hc Hi; [|exact (P2 a0 p' Hin Hp' Hc Hi)].
+      (* a is not touched by the later steps *)
+      assert (Keep : pget ps' a = Some (set_am_choked p am opt)).
+      { clear - H' Hni. revert H' Hni. generalize (pset ps a (set_am_choked p am opt)) (pget_pset_same ps a (set_am_choked p am opt)).
+        generalize (flips ++ fl0). generalize cnt'. clear.
+        induction rest as [|b rest IHr]; intros cnt flp ps0 E0 H' Hni; cbn [rotate_go] in H'.
+        - injection H' as <- _. exact E0.
+        - destruct (pget ps0 b) as [q|] eqn:Eq; [|discriminate].
+          destruct (if cnt <? MAX_UNCHOKED then _ else _) as [[am1 cnt1] fl1].
+          eapply IHr; [|exact H'|intros Hin; apply Hni; right; exact Hin].
+          rewrite pget_pset_other; [exact E0|]. intros ->. apply Hni. left. reflexivity. }
+      rewrite Keep in Hp'. injection Hp' as <-. cbn [set_am_choked p_am_choked p_interested] in Hc, Hi. exact (Ham Hc Hi). }
+    destruct (p_am_choked p && p_interested p && negb (mem_addr a new_opt)) eqn:E1.
+    + apply (Go false (count + 1) [(a, false)]); [discriminate | exact H].
+    + destruct (negb (p_am_choked p) && p_interested p) eqn:E2.
+      * apply (Go (p_am_choked p) (count + 1) []); [|exact H]. intros Hc _. rewrite Hc in E2. discriminate.
+      * destruct (negb (p_am_choked p) && negb (p_interested p)) eqn:E3.
+        -- apply (Go true count [(a, true)]); [|exact H]. intros _ Hi. rewrite Hi in E3. rewrite andb_false_r in E3. discriminate.
+        -- apply (Go (p_am_choked p) count []); [|exact H]. intros Hc Hi. rewrite Hc, Hi in E1. cbn in E1.
+           destruct (mem_addr a new_opt); [reflexivity | discriminate].
+Qed.
+
+Lemma mem_addr_In a l : mem_addr a l = true <-> In a l.
+Proof.
+  induction l as [|x l IH]; cbn [mem_addr In]; [split; [discriminate | intros []]|].
+  rewrite orb_true_iff, IH, N.eqb_eq. tauto.
+Qed.
+
+Lemma set_optimistic_in : forall new_opt ps flips ps' fl', set_optimistic ps new_opt flips = Ok (ps', fl') ->
+  forall a p', In a new_opt -> pget ps' a = Some p' -> p_am_choked p' = false /\ p_optimistic p' = true.
+Proof.
+  induction new_opt as [|a0 rest IH]; intros ps flips ps' fl' H a p' Hin Hp'; [contradiction|].
+  cbn [set_optimistic] in H. destruct (pget ps a0) as [p|] eqn:Ep; [|discriminate].
+  destruct (in_dec N.eq_dec a rest) as [Hr|Hr]; [exact (IH _ _ _ _ H a p' Hr Hp')|].
+  destruct Hin as [<-|Hin]; [|contradiction].
+  rewrite (set_optimistic_other _ _ _ _ _ H a0 Hr), pget_pset_same in Hp'. injection Hp' as <-. split; reflexivity.
+Qed.
+
+(* after a rotation over all rated peers: a peer left choked although interested never has a strictly better rate
+   than a peer holding a regular slot *)
+Theorem rotation_rate_order m rates new_opt m' fl :
+  NoDup (map fst rates) -> change_conn_state m rates new_opt = Ok (m', fl) ->
+  forall a ra b rb pa pb, In (a, ra) rates -> In (b, rb) rates ->
+    pget (m_peers m') a = Some pa -> pget (m_peers m') b = Some pb ->
+    p_am_choked pa = true -> p_interested pa = true ->
+    p_am_choked pb = false -> p_optimistic pb = false -> ra <= rb.
+Proof.
+  intros Hnd H a ra b rb pa pb Ha Hb Epa Epb Hca Hia Hcb Hob. unfold change_conn_state in H.
+  destruct (rotate_go (m_peers m) (map fst (sort_rates rates)) new_opt 0 []) as [[ps1 fl1]| | |] eqn:E1; cbn [bind] in H; try discriminate.
+  cbn [fst snd] in H. destruct (set_optimistic ps1 new_opt fl1) as [[ps2 fl2]| | |] eqn:E2; cbn [bind] in H; try discriminate.
+  injection H as <- _. cbn [m_peers fst] in Epa, Epb.
+  set (srt := sort_rates rates) in *.
+  assert (Hperm : Permutation srt rates) by apply sort_rates_perm.
+  assert (Hnd' : NoDup (map fst srt)) by (eapply Permutation_NoDup; [apply Permutation_map, Permutation_sym, Hperm | exact Hnd]).
+  (* neither is a fresh optimistic pick: their entries are as the rotation left them *)
+  assert (Na : ~ In a new_opt).
+  { intros Hin. destruct (set_optimistic_in _ _ _ _ _ E2 a pa Hin Epa) as [Hc _]. congruence. }
+  assert (Nb : ~ In b new_opt).
+  { intros Hin. destruct (set_optimistic_in _ _ _ _ _ E2 b pb Hin Epb) as [_ Ho]. congruence. }
+  rewrite (set_optimistic_other _ _ _ _ _ E2 a Na) in Epa. rewrite (set_optimistic_other _ _ _ _ _ E2 b Nb) in Epb.
+  destruct (rotate_go_split new_opt _ _ _ _ _ _ Hnd' E1) as (pre & post & Eo & P1 & P2).
+  assert (Ia : In a (map fst srt)) by (apply in_map_iff; exists (a, ra); split; [reflexivity | apply (Permutation_in _ (Permutation_sym Hperm)), Ha]).
+  assert (Ib : In b (map fst srt)) by (apply in_map_iff; exists (b, rb); split; [reflexivity | apply (Permutation_in _ (Permutation_sym Hperm)), Hb]).
+  rewrite Eo in Ia, Ib. apply in_app_or in Ia. apply in_app_or in Ib.
+  (* a was processed after the slots were used up, b before *)
+  assert (Apost : In a post).
+  { destruct Ia as [Ipre|Ipost]; [|exact Ipost]. exfalso. apply Na. apply mem_addr_In. exact (P2 a pa Ipre Epa Hca Hia). }
+  assert (Bpre : In b pre).
+  { destruct Ib as [Ipre|Ipost]; [exact Ipre|]. exfalso. pose proof (P1 b pb Ipost Epb). congruence. }
+  (* split the sorted list accordingly *)
+  set (k := length pre).
+  assert (Es : srt = firstn k srt ++ skipn k srt) by (symmetry; apply firstn_skipn).
+  assert (E1s : map fst (firstn k srt) = pre).
+  { rewrite <- firstn_map, Eo. unfold k. rewrite firstn_app, Nat.sub_diag, firstn_all. cbn [firstn]. apply app_nil_r. }
+  assert (E2s : map fst (skipn k srt) = post).
+  { rewrite <- skipn_map, Eo. unfold k. rewrite skipn_app, Nat.sub_diag, skipn_all. reflexivity. }
+  assert (Hnd2 : NoDup (pre ++ post)) by (rewrite <- Eo; exact Hnd').
+  assert (Ina : In (a, ra) (skipn k srt)).
+  { assert (I0 : In (a, ra) srt) by (apply (Permutation_in _ (Permutation_sym Hperm)), Ha).
+    rewrite Es in I0. apply in_app_or in I0. destruct I0 as [I0|I0]; [|exact I0]. exfalso.
+    assert (In a pre) by (rewrite <- E1s; apply in_map_iff; exists (a, ra); split; [reflexivity | exact I0]).
+    clear - Hnd2 H Apost. induction pre as [|x pre IHp]; [contradiction|]. cbn [app] in Hnd2. inversion Hnd2 as [|? ? Hni Hnd3]; subst.
+    destruct H as [->|H]; [apply Hni, in_or_app; right; exact Apost | apply IHp; assumption]. }
+  assert (Inb : In (b, rb) (firstn k srt)).
+  { assert (I0 : In (b, rb) srt) by (apply (Permutation_in _ (Permutation_sym Hperm)), Hb).
+    rewrite Es in I0. apply in_app_or in I0. destruct I0 as [I0|I0]; [exact I0|]. exfalso.
+    assert (Bpost : In b post) by (rewrite <- E2s; apply in_map_iff; exists (b, rb); split; [reflexivity | exact I0]).
+    clear - Hnd2 Bpre Bpost. induction pre as [|x pre IHp]; [contradiction|]. cbn [app] in Hnd2. inversion Hnd2 as [|? ? Hni Hnd3]; subst.
+    destruct Bpre as [->|H]; [apply Hni, in_or_app; right; exact Bpost | apply IHp; assumption]. }
+  pose proof (sort_rates_sorted rates) as HS. fold srt in HS. rewrite Es in HS.
+  exact (sorted_app_order _ _ (b, rb) (a, ra) HS Inb Ina).
+Qed.
